@@ -598,6 +598,11 @@ def _batch_case(rng, n=None, forced=None, threads=True):
     if n is None:
         n = rng.choice([1, 2, 2, 3, 3, 4, 4, 5, 6])
     labels, specs, lays = _batch_frames(rng, n)
+    if forced is None and n >= 2 and rng.random() < 0.15:
+        # a Batch is a stream of (label, Frame) pairs: labels may repeat (equal Frame names); every pair keeps its own result
+        i, j = sorted(rng.sample(range(n), 2))
+        labels[j] = labels[i]
+        specs[j].name = labels[i]
     op = 'apply' if forced is not None and rng.random() < 0.6 else rng.choice(_BATCH_OPS)
     if forced is not None and op == 'attr':
         op = 'apply_items'
@@ -627,6 +632,10 @@ def _store_case(rng, n=None, forced=None, fmt=None, direction=None):
         n = rng.choice([1, 2, 2, 3, 3, 4, 5, 6])
     labels, specs, lays = _batch_frames(rng, n, simple=fmt != 'pickle')
     labels = [f'L{i}_{rng.choice("abcxyz")}' for i in range(n)]
+    encoded = fmt != 'pickle' and forced is None and rng.random() < 0.3
+    if encoded:
+        # labels that are not strings, written under str() and read back through a decoder: the Frame carries the label, not its text
+        labels = rng.sample(range(100, 140), n)
     rng.shuffle(labels)
     for lab, spec in zip(labels, specs):
         spec.name = lab
@@ -655,7 +664,7 @@ def _store_case(rng, n=None, forced=None, fmt=None, direction=None):
     return {'kind': 'store', 'fmt': fmt, 'labels': labels, 'specs': specs, 'layouts': lays, 'direction': direction,
             'workers': workers, 'chunksize': chunk, 'read_labels': read_labels, 'per_label': per_label, 'slow': slow,
             'via': via, 'forced': forced, 'delays': [rng.choice(_DELAY_POOL) for _ in range(8)],
-            'max_workers': workers, 'threads': False}
+            'max_workers': workers, 'threads': False, 'encoded': encoded}
 
 
 def _align_case(rng):
@@ -1187,6 +1196,8 @@ def _store_config(case, parallel):
         wk = {'read_max_workers': w, 'read_chunksize': c} if case['direction'] == 'read' else \
              {'write_max_workers': w, 'write_chunksize': c}
     base = {'index_depth': 1, 'include_index': True} if case['fmt'] != 'pickle' else {}
+    if case.get('encoded'):
+        wk = dict(wk, label_encoder=str, label_decoder=int)
     default = sf.StoreConfig(**base, **wk)
     if not case['per_label']:
         return default, {}
@@ -1235,7 +1246,8 @@ def _check_store(case, ctx, tmp, out):
         ctx.tally('store_config', 'per_label_config_map')
     klass = {'api': 'store', 'fmt': fmt, 'direction': direction, 'via': case['via'], 'workers': 'many' if w > 1 else 'one',
              'chunked': case['chunksize'] > 1, 'per_label_config': bool(per), 'slow_cells': case['slow'],
-             'repeated_read_labels': len(set(case['read_labels'])) < len(case['read_labels']), 'n_tasks_ge_2': n >= 2}
+             'repeated_read_labels': len(set(case['read_labels'])) < len(case['read_labels']), 'n_tasks_ge_2': n >= 2,
+             'encoded_labels': bool(case.get('encoded'))}
     detail = {'labels': labels, 'workers': w, 'chunksize': case['chunksize'], 'read_labels': case['read_labels']}
     ext = {'pickle': '.pickle', 'tsv': '.txt', 'csv': '.csv'}[fmt]
 
@@ -1271,7 +1283,7 @@ def _check_store(case, ctx, tmp, out):
             ctx.violation('pool_result_differs_from_sequential',
                           detail=dict(detail, what='member names/order', sequential=[a for a, _ in ms], pool=[a for a, _ in mp]), klass=klass)
             return
-        if [a for a, _ in mp] != [lab + ext for lab in labels]:
+        if [a for a, _ in mp] != [str(lab) + ext for lab in labels]:
             ctx.violation('both_forms_differ_from_pairing_model', detail=dict(detail, problem='member order', pool=[a for a, _ in mp]),
                           klass=klass)
             return
@@ -1348,7 +1360,7 @@ def _check_store(case, ctx, tmp, out):
         else:
             o = per.get(lab, {'index_depth': 1})
             ctor = sf.Frame.from_tsv if fmt == 'tsv' else sf.Frame.from_csv
-            model, m_exc = _call(lambda: ctor(StringIO(members[lab + ext].decode()), index_depth=o['index_depth'],
+            model, m_exc = _call(lambda: ctor(StringIO(members[str(lab) + ext].decode()), index_depth=o['index_depth'],
                                               columns_depth=1, name=lab))
             if m_exc is not None:
                 ctx.tally('model', 'delimited constructor raised in the harness although both forms returned')
